@@ -195,8 +195,8 @@ func gzipCount(p []byte) int { return len(p) - bytes.Count(p, []byte{wire.FMd5})
 
 func e2ePipes(p protos.P, thorough bool, r *core.Rand) []string {
 	if p.HTTP {
-		// one Content-Encoding header: a pipe of one gzip filter (documented: "only support xfer filter: gzip")
-		return []string{"", "z", "g"}
+		// documented: "only support xfer filter: gzip" - pipes made of gzip filters, repeats included
+		return []string{"", "z", "g", "zz", "zg", "gz", "gzg"}
 	}
 	out := []string{"", "z", "g", "m", "zm", "mz", "gm", "mg", "zz", "mm", "mzm", "zmg", "gzm"}
 	n := 3
